@@ -61,6 +61,7 @@ type checkOpts struct {
 	repo, verif, property, fn, tier, dump string
 	verbose                              bool
 	noEvidence                           bool
+	genOnly                              bool
 }
 
 func cmdCheck(args []string) int {
@@ -74,6 +75,7 @@ func cmdCheck(args []string) int {
 	fs.StringVar(&o.dump, "dump", "", "keep SMT files in this directory")
 	fs.BoolVar(&o.verbose, "v", false, "verbose")
 	fs.BoolVar(&o.noEvidence, "no-evidence", false, "do not write evidence / replays")
+	fs.BoolVar(&o.genOnly, "gen-only", false, "generate obligations and print counts, do not solve")
 	fs.Parse(args)
 	if o.tier == "" {
 		o.tier = os.Getenv("VERIF_TIER")
@@ -133,6 +135,22 @@ func runCheck(o checkOpts) checkResult {
 		queries = append(queries, fx.queries...)
 	}
 	genS := time.Since(t0).Seconds() - loadS
+	if o.genOnly {
+		cnt := map[string]int{}
+		size := map[string]int{}
+		for _, q := range queries {
+			cnt[q.Obl]++
+			size[q.Obl] += len(q.Goal)
+			for _, h := range q.Hyps {
+				size[q.Obl] += len(h)
+			}
+		}
+		for _, k := range sortedKeys(cnt) {
+			fmt.Printf("%5d q %9d B  %s\n", cnt[k], size[k], k)
+		}
+		fmt.Printf("total %d queries, errors: %v\n", len(queries), genErrs)
+		return checkResult{}
+	}
 	dir := o.dump
 	if dir == "" {
 		dir, _ = os.MkdirTemp("", "govc-smt-")
@@ -140,9 +158,15 @@ func runCheck(o checkOpts) checkResult {
 	} else {
 		os.MkdirAll(dir, 0o755)
 	}
-	sv := &Solver{dir: dir, workers: runtime.NumCPU(), quickT: 4, longT: 20, seed: seed, cache: map[string]*solveResult{}, perSolver: map[string]*solverStat{}, keep: o.dump != ""}
+	sv := &Solver{dir: dir, workers: runtime.NumCPU(), quickT: 4, longT: 20, seed: seed, cache: map[string]*solveResult{}, perSolver: map[string]*solverStat{}, keep: o.dump != "", progress: o.verbose}
 	if o.tier == "thorough" {
 		sv.quickT, sv.longT = 10, 120
+	}
+	if v := envInt("GOVC_T1", 0); v > 0 {
+		sv.quickT = v
+	}
+	if v := envInt("GOVC_T2", 0); v > 0 {
+		sv.longT = v
 	}
 	if v := envInt("GOVC_WORKERS", 0); v > 0 {
 		sv.workers = v
